@@ -549,6 +549,8 @@ Section Reader.
     (* LP; TKEY: uncompressed names that keep their case (repo commits 4d820d6, 3aeb81b) *)
     else if rdtype =? 107 then Some [FFix 2; FNameX]
     else if rdtype =? 249 then Some [FNameX; FFix 12; FCnt16; FCnt16]
+    (* DSYNC *)
+    else if rdtype =? 66 then Some [FFix 5; FNameX]
     (* DNAME; NSEC; BRID HHIT *)
     else if rdtype =? 39 then Some [FNameX]
     else if rdtype =? 47 then Some [FNameX; FChk 4]
